@@ -443,6 +443,7 @@ async fn fixture(store: Arc<dyn object_store::ObjectStore>, name: &str, with_oth
 }
 
 fn seq_case(case: u64, rng: &mut Rng, st: &mut Stats, n_stmts: usize) {
+    set_case("seq", case);
     let r = vcore::run::block_on(seq_case_async(case, rng, st, n_stmts));
     if let Err(e) = r {
         st.inconclusive(format!("C17 seq: harness trouble: {e}"));
@@ -543,6 +544,7 @@ async fn seq_case_async(case: u64, rng: &mut Rng, st: &mut Stats, n_stmts: usize
 // accepted by design: store/write.rs check_same_space), which is what this workload uses.
 
 fn spaces_case(case: u64, rng: &mut Rng, st: &mut Stats, rounds: usize) {
+    set_case("spaces", case);
     let r = vcore::run::block_on(async {
         let fx = fixture(Arc::new(InMemory::new()), &format!("c17s_{case}"), true).await?;
         let mut model: BTreeMap<(String, String, String, String), String> = BTreeMap::new();
@@ -635,6 +637,7 @@ fn vis_case(case: u64, rng: &mut Rng, st: &mut Stats, rounds: usize, with_previe
         for r in 0..3u64 {
             let (nexus, done, commits) = (nexus.clone(), done.clone(), commits.clone());
             readers.push(tokio::spawn(async move {
+                set_case("vis", case);
                 let mut st = Stats::default();
                 let mut last_commits = 0;
                 let mut i = 0u64;
@@ -751,6 +754,7 @@ fn vis_case(case: u64, rng: &mut Rng, st: &mut Stats, rounds: usize, with_previe
 // monitor 3: crash prefixes
 
 fn crash_case(case: u64, rng: &mut Rng, st: &mut Stats, n_stmts: usize, max_prefixes: usize) {
+    set_case("crash", case);
     let r = vcore::run::block_on(crash_case_async(case, rng, st, n_stmts, max_prefixes));
     if let Err(e) = r {
         st.inconclusive(format!("C17 crash: harness trouble: {e}"));
@@ -869,6 +873,7 @@ fn main() {
     if run.wants("crash") {
         run.parallel("crash", t.pick(12, 80), 0.9, |c, rng, st| crash_case(c, rng, st, t.pick(5, 7), t.pick(40, 100000)));
     }
+    drain_reports(&mut run);
     run.floor("stmt_committed", 200);
     run.floor("stmt_refused", 200);
     run.floor("stmt_committed_no_effect", 10);
